@@ -114,7 +114,7 @@ def init_false_fields(u):
 
 def gen_cases(rng, tier):
     cases = []
-    n_uni = 5 if tier == "quick" else 150
+    n_uni = 8 if tier == "quick" else 150
     for _ in range(n_uni):
         u0 = with_zero_float(make_universe(rng), rng)
         for _t in range(3 if tier == "quick" else 6):
